@@ -2,11 +2,16 @@
 
 Two kinds of case, selected by ``case['mode']``:
 
-``'sim'``    ``{'mode': 'sim', 'net': <netgen spec>}``: a generated network (post-processed here: parallel links in
-             both directions, dead-end branches, initially closed links, a schedule of time controls opening and
-             closing links on and off the hydraulic grid) is simulated once with WNTRSimulator.  For every reported
+``'sim'``    ``{'mode': 'sim', 'net': <netgen spec>, 'pause': t | absent}``: a generated network (post-processed here:
+             parallel links in both directions, dead-end branches behind pipes / check valves / boosters / regulating
+             valves, initially closed links, a schedule of time controls opening and closing links on and off the
+             hydraulic grid, optionally the whole network below the reference level) is simulated once with
+             WNTRSimulator (``pause``: in two parts with a new simulator object for the second).  For every reported
              row the graph of links whose *reported* status is not Closed is built from the spec's end points and
-             searched from the tanks/reservoirs with an own BFS (vlib.spec.reachable_from_sources).
+             searched from the tanks/reservoirs with an own BFS (vlib.spec.reachable_from_sources): unreachable
+             junction => demand = pressure = 0 and zero flow in its links; reachable junction => head = pressure +
+             elevation, DD demand as specified, node balance.  A run that stops is judged by `_judge_stopped_run`
+             (is it only because a part is cut off?).
 ``'graph'``  ``{'mode': 'graph', 'via': 'csr'|'wn', 'n': N, 'sources': [...], 'links': [[a, b, status, kind], ...],
              'rounds': [[[link_index, status], ...], ...]}``: unit-level differential of the reachability search.
              ``via='csr'``: the adjacency is laid out by this module the way the simulator keeps it (one CSR entry per
@@ -27,7 +32,7 @@ from .c01 import balance_check
 
 ID = 'C09'
 LEVEL = 'exploration'
-CASES = {'quick': 3200, 'thorough': 60000}
+CASES = {'quick': 2400, 'thorough': 60000}
 SHRINK_BUDGET = {'quick': 45, 'thorough': 240}
 CASE_TIMEOUT = 40
 TECHNIQUE = ('property-based testing (Hypothesis): (a) generated networks with closures and open/close schedules '
@@ -47,9 +52,10 @@ RULE = ('sim cases (1 in 4): netgen networks (2-8 junctions, thorough to 14; spa
         'in either direction, statuses closed/open/active, 0-4 rounds of 1-3 status changes; via csr (direct call of the '
         'C++ search, rows in sorted or rotated order) or via wn (simulator-maintained adjacency of a pipes/valves model). '
         'Enumerated part: all multigraphs on 1 source + 2 junctions with 0-2 links per pair and every open/closed pattern '
-        '(via wn and csr, followed by two rounds of changes) and 12 hand-built simulation scenarios (parallel pair closed '
+        '(via wn and csr, followed by two rounds of changes) and 17 hand-built simulation scenarios (parallel pair closed '
         'one by one and reopened, dead end cut and reconnected off-grid, every junction cut off, PRV closed/active, pump '
-        'outage, PRV and CV inside the cut-off part, draining tank as last source, the same paused). '
+        'outage, PRV and CV inside the cut-off part, draining tank as last source, the same paused, booster / check '
+        'valve / PSV pointing out of a dead end and a dead end behind an empty tank at low or negative heads). '
         'Non-trivial: sim = run in which some junction is cut off in some reported row and some junction is reachable in '
         'some row; graph = some non-source node unreachable and some reachable in some round. '
         'Distinct = SHA-1 of the case.')
@@ -85,7 +91,7 @@ TOLERANCES = {'zero_demand': 'exactly 0 (|x| <= 1e-15)', 'zero_pressure': 'exact
               'head_pressure_elevation': '1e-9*(1+|head|) m',
               'dd_demand_rel': 1e-12, 'junction_balance_abs': '1.05e-6 + 1e-9*sum|q| (as C01)',
               'tank_reservoir_balance': '1e-9*(1+sum|q|) (as C01)'}
-LEVEL_TEXT = ('exploration: about a thousand simulated networks and three thousand reachability graphs per seed (quick); '
+LEVEL_TEXT = ('exploration: about 600 simulated networks and 2500 reachability graphs per seed (quick); '
               'all 3-node multigraphs with <= 2 links per pair are enumerated; no exhaustiveness claim beyond that')
 LEVEL_NOTE = ('trusted base: vlib.spec.reachable_from_sources (12-line BFS), the CSR lay-out and status bookkeeping in '
               'this file, vlib.spec builders, the C01 balance evaluator; link statuses are taken from the reported '
@@ -358,7 +364,7 @@ def check_sim(case):
                         % (e, {t: sorted(v) for t, v in ucut.items() if v}, where), tags)
         if len(run.times) == 0:
             if pi == 0 or not run.ok:
-                return _judge_failed_first_step(spec, run, ucut, hw, tags, len(parts) > 1, wn)
+                return _judge_stopped_run(spec, run, ucut, hw, tags, len(parts) > 1, wn)
             continue
         bad, st_ = judge_rows(spec, run, tags)
         for k, v in st_.items():
@@ -370,7 +376,7 @@ def check_sim(case):
             return fail(bal[0], bal[1] + ' [user-level cut sets %s]%s'
                         % ({t: sorted(v) for t, v in ucut.items() if v}, where), tags)
         if not run.ok:
-            return _judge_failed_first_step(spec, run, ucut, hw, tags, len(parts) > 1, wn)
+            return _judge_stopped_run(spec, run, ucut, hw, tags, len(parts) > 1, wn)
     nontrivial = stats.get('iso_junction_rows', 0) > 0 and stats.get('reach_rows', 0) > 0
     return passed(nontrivial, tags)
 
@@ -401,7 +407,7 @@ def _closing_kinds(spec, cut, tf, wn=None):
     return sorted(kinds)
 
 
-def _judge_failed_first_step(spec, run, ucut, hw, tags, paused=False, wn0=None):
+def _judge_stopped_run(spec, run, ucut, hw, tags, paused=False, wn0=None):
     """A run that stopped early: is it only because a part is cut off?
 
     The run is repeated with every step reported.  C = the junctions that were cut off in the last solved trial
@@ -1014,6 +1020,39 @@ def hand_built():
     out.append(s)
     # the same paused in the middle of the cut-off period and continued with a new simulator
     out.append(('pause', 3 * 3600, copy.deepcopy(s)))
+    # links whose own status logic cuts a dead end off (they point out of it / the tank is at its minimum level);
+    # the status logic then looks at the head of the cut-off junction
+    s = _base(_opts(2 * 3600, 3600))           # booster out of a dead end, low heads, everything above the reference
+    s['reservoirs'] = [{'name': 'R1', 'head': 8.0, 'pat': None}]
+    s['junctions'] = [_junction('J1', 2.0), _junction('J2', 1.0)]
+    s['curves'] = {'HC1': {'type': 'HEAD', 'pts': [[0.004, 10.0]]}}
+    s['pipes'] = [_pipe('L1', 'R1', 'J1')]
+    s['pumps'] = [{'name': 'PU1', 'a': 'J2', 'b': 'J1', 'type': 'HEAD', 'power': None, 'curve': 'HC1', 'status': 'OPEN'}]
+    out.append(s)
+    s = _base(_opts(2 * 3600, 3600))           # check valve out of a dead end, junctions below the reference level
+    s['reservoirs'] = [{'name': 'R1', 'head': -20.0, 'pat': None}]
+    s['junctions'] = [_junction('J1', -60.0), _junction('J2', -65.0)]
+    s['pipes'] = [_pipe('L1', 'R1', 'J1'), _pipe('L2', 'J2', 'J1', cv=True)]
+    out.append(s)
+    s = _base(_opts(3600, 3600))               # the same above the reference; the demand-driven head of J1 is below 0
+    s['reservoirs'] = [{'name': 'R1', 'head': 20.0, 'pat': None}]
+    s['junctions'] = [_junction('J1', 5.0, 0.02), _junction('J2', 2.0)]
+    s['pipes'] = [dict(_pipe('L1', 'R1', 'J1', diam=0.1), len=1000.0), _pipe('L2', 'J2', 'J1', cv=True)]
+    out.append(s)
+    s = _base(_opts(2 * 3600, 3600))           # dead end behind a tank at its minimum level, below the reference
+    s['reservoirs'] = [{'name': 'R1', 'head': -50.0, 'pat': None}]
+    s['tanks'] = [{'name': 'T1', 'elev': -70.0, 'init': 0.5, 'min': 0.5, 'max': 5.0, 'diam': 5.0, 'min_vol': 0.0,
+                   'vol_curve': None}]
+    s['junctions'] = [_junction('J1', -90.0), _junction('J2', -95.0)]
+    s['pipes'] = [_pipe('L1', 'R1', 'J1'), _pipe('L2', 'T1', 'J2')]
+    out.append(s)
+    s = _base(_opts(2 * 3600, 3600))           # PSV out of a dead end, below the reference
+    s['reservoirs'] = [{'name': 'R1', 'head': -50.0, 'pat': None}]
+    s['junctions'] = [_junction('J1', -90.0), _junction('J2', -95.0)]
+    s['pipes'] = [_pipe('L1', 'R1', 'J1')]
+    s['valves'] = [{'name': 'V2', 'a': 'J2', 'b': 'J1', 'type': 'PSV', 'diam': 0.3, 'minor': 0.0, 'setting': 20.0,
+                    'status': 'ACTIVE'}]
+    out.append(s)
     return out
 
 
